@@ -102,6 +102,31 @@ def _treetrace(ctx, quick, cov, ext_rounds):
     return rep, results
 
 
+def _selftest_tree(ctx, results):
+    """Binding demonstration: flip one logged consult verdict; TraceTree.tla must object."""
+    src = results[0]["trace_file"]
+    lines = open(src).readlines()
+    out = []
+    done = False
+    for ln in lines[:400]:
+        if not done and '"ev":"detect"' in ln:
+            rec = json.loads(ln)
+            acc = [i for i, c in enumerate(rec["consults"]) if c[1] == 1]
+            if acc and not rec["err"]:
+                rec["consults"][acc[0]][1] = 0
+                ln = json.dumps(rec) + "\n"
+                done = True
+        out.append(ln)
+    if not done:
+        return "skipped (no accepting consult in the first records)"
+    tf = os.path.join(ctx.scratch, "selftest-tree.ndjson")
+    open(tf, "w").writelines(out)
+    r = ctx.tlc("TraceTree.tla", "TraceTree.cfg", workers=1, env={"TRACE": tf}, xmx="3g", tag="selftest-tree")
+    if not any(t[0] == "VIOLATION" and t[1] == "C03" for t in r["tuples"]):
+        raise core.Infra("self-test: a corrupted consult verdict was NOT rejected by TraceTree.tla")
+    return "corrupted consult verdict rejected"
+
+
 def c03(ctx):
     prop = "C03"
     quick = ctx.tier == "quick"
@@ -109,6 +134,7 @@ def c03(ctx):
     cov = {}
     srep = _seq_replay(ctx, quick, cov)
     trep, results = _treetrace(ctx, quick, cov, 2 if quick else 6)
+    cov["binding_selftest"] = _selftest_tree(ctx, results)
     violations = _replay_violations(srep, prop) + _tree_violations(results, prop)
     if not quick:
         violations += _replay_violations(_sim_replay(ctx, cov, "P1", 6, 40000, 60, False, "seq6"), prop)
@@ -162,6 +188,17 @@ def c06(ctx):
     rp = os.path.join(ctx.scratch, "conctrace.json")
     ctx.vdrive(["conctrace", "-outdir", tdir, "-runs", 16 if quick else 128, "-goroutines", 8, "-ops", 150 if quick else 400, "-seed", ctx.seed, "-out", rp])
     crep = ctx.report(rp)
+    # bursts: every goroutine starts with an Extend on the same parent, released together, then looks every extension up
+    bdir = os.path.join(ctx.scratch, "burst")
+    os.makedirs(bdir)
+    rpb = os.path.join(ctx.scratch, "burst.json")
+    ctx.vdrive(["conctrace", "-burst", "-outdir", bdir, "-runs", 24 if quick else 200, "-goroutines", 8, "-ops", 6, "-maxext", 12, "-seed", ctx.seed + 3, "-out", rpb])
+    brep = ctx.report(rpb)
+    crep["evaluations"] += brep["evaluations"]
+    crep["extra"]["runs"] += brep["extra"]["runs"]
+    crep["extra"]["events"] += brep["extra"]["events"]
+    for bf in sorted(glob.glob(os.path.join(bdir, "*.ndjson"))):
+        os.rename(bf, os.path.join(tdir, "burst-" + os.path.basename(bf)))
     files = sorted(glob.glob(os.path.join(tdir, "*.ndjson")))
     violations = _replay_violations(g2, prop) + _replay_violations(g3, prop)
     # rejected traces are C06 violations (the trace itself is the replay artefact)
@@ -195,6 +232,27 @@ def c06(ctx):
         else:
             ctx.traces_validated += 1
             ctx.trace_records += len(open(r["trace_file"]).readlines())
+    # binding demonstration: corrupt one logged result / drop one lock event; both must be rejected
+    if files and not rejected:
+        lines = [json.loads(x) for x in open(files[0])]
+        idx = [i for i, e in enumerate(lines) if e["ev"] == "detect.ret"]
+        jdx = [i for i, e in enumerate(lines) if e["ev"] == "ext.locked"]
+        tests = []
+        if idx:
+            c1 = [dict(e) for e in lines]
+            c1[idx[len(idx) // 2]]["path"] = c1[idx[len(idx) // 2]]["path"] + ["tj"]
+            tests.append(("corrupted result", c1))
+        if jdx:
+            tests.append(("dropped ext.locked event", [e for i, e in enumerate(lines) if i != jdx[0]]))
+        outcome = []
+        for name, evs in tests:
+            tf = os.path.join(ctx.scratch, "selftest-conc.ndjson")
+            open(tf, "w").write("\n".join(json.dumps(e) for e in evs) + "\n")
+            r = ctx.tlc("MC_TraceConc.tla", "TraceConc.cfg", workers=1, env={"TRACE": tf}, xmx="3g", tag="selftest-conc")
+            if not any(t[0] == "INFO" and t[1] == "rejected_at" for t in r["tuples"]):
+                raise core.Infra("self-test: trace with %s was NOT rejected by TraceConc.tla" % name)
+            outcome.append(name + ": rejected")
+        cov["binding_selftest"] = outcome
     # 4. untraced stress under the race detector (no hook installed: no extra synchronisation)
     rp2 = os.path.join(ctx.scratch, "concrace.json")
     ctx.vdrive(["conctrace", "-notrace", "-runs", 8 if quick else 64, "-goroutines", 8, "-ops", 400 if quick else 2000, "-seed", ctx.seed + 7, "-out", rp2],
